@@ -125,7 +125,8 @@ uint64_t g_opos;       /* bytes the codec produced (+ start value) */
 int g_last;            /* status of the most recent call */
 int g_last_mode;
 bool g_codec_err;
-unsigned g_codec_calls;
+unsigned g_codec_calls; /* saturating (cover points) */
+unsigned g_ncalls;      /* exact */
 bool g_end_seen;       /* some call returned END */
 bool g_open;           /* the codec holds an unfinished stream: it consumed
 			* input since the last END (or since creation) */
@@ -156,6 +157,11 @@ static int c15_process_data(xfrm_stream_t *stream, const void *in,
 		      flush_mode);
 	VERIF_ASSERT(VERIF_R_OK(in, in_size) && VERIF_W_OK(out, out_size),
 		     "C15.codec.buffers");
+#ifdef C15_MAX_CALLS
+	/* bounded harnesses: at most C15_MAX_CALLS codec calls are explored */
+	VERIF_ASSUME(g_ncalls < C15_MAX_CALLS);
+#endif
+	g_ncalls++;
 	if (g_codec_calls < 3)
 		g_codec_calls++;
 	g_last_mode = flush_mode;
@@ -211,6 +217,7 @@ static inline void c15_codec_init(sqfs_u8 *obase)
 	g_last_mode = XFRM_STREAM_FLUSH_NONE;
 	g_codec_err = false;
 	g_codec_calls = 0;
+	g_ncalls = 0;
 	g_end_seen = false;
 	g_open = verif_nd_bool("codec.open");
 	g_end_fuel = verif_nd_u64("codec.end_fuel");
